@@ -814,6 +814,15 @@ func (p *Posix) createObjVersion(bucket, key string, size int64, acc auth.Accoun
 	}
 	defer sf.Close()
 
+	// the size of the file that is copied: the one the caller saw earlier
+	// may belong to an object replaced in the meantime, and the version
+	// would be preallocated (zero padded) to that size
+	sfi, err := sf.Stat()
+	if err != nil {
+		return "", err
+	}
+	size = sfi.Size()
+
 	var versionId string
 	data, err := p.meta.RetrieveAttribute(sf, bucket, key, versionIdKey)
 	if err != nil && !errors.Is(err, meta.ErrNoSuchKey) {
